@@ -181,6 +181,7 @@ func (g *vRandGen) set(big bool) []vStreamC {
 type vSearchRes struct {
 	Q    string   `json:"q"`
 	Qk   string   `json:"qk"` // the query with its values blanked (narrow signature)
+	Host bool     `json:"host"` // the query filters or sorts by host
 	IDs  []string `json:"ids"`
 	Keys []string `json:"keys"`
 	More bool     `json:"more"`
@@ -188,6 +189,7 @@ type vSearchRes struct {
 }
 type vStackObs struct {
 	Files    int          `json:"files"`
+	Multi    bool         `json:"multi"` // some file of the stack has a second host group of an address family
 	Visible  []vRec       `json:"visible"`
 	Via      []vRec       `json:"viasearch"`
 	NFill    int          `json:"nfill"`
@@ -213,7 +215,7 @@ type vMergeRow struct {
 	Inputs  string    `json:"inputs"` // "" or how an input file changed while it was merged
 }
 
-func vIsFiller(id uint64) bool { return id >= 1_000_000 && id < 4_000_000 }
+func vIsFiller(id uint64) bool { return id >= 1_000_000 && id < 6_000_000 }
 
 func vCompact(l []string) []string {
 	if len(l) <= 40 {
@@ -238,7 +240,7 @@ func vRecsDigest(m map[uint64]vRec) (string, int) {
 	h := sha1.New()
 	for _, id := range ids {
 		r := m[id]
-		r.Grp, r.Gf, r.Gr, r.Feat = "", "", 0, nil
+		r.Grp, r.Gf, r.Gr, r.Gx, r.Feat = "", "", 0, false, nil
 		js, _ := json.Marshal(r)
 		h.Write(js)
 	}
@@ -270,7 +272,7 @@ func vSortKey(st *Stream, key query.SortingKey) string {
 }
 
 func vSearch(stack []*Reader, q string) (res vSearchRes, sts []*Stream) {
-	res = vSearchRes{Q: q, Qk: vQueryKind(q), IDs: []string{}, Keys: []string{}}
+	res = vSearchRes{Q: q, Qk: vQueryKind(q), Host: strings.Contains(q, "host"), IDs: []string{}, Keys: []string{}}
 	defer func() {
 		if e := recover(); e != nil {
 			res.Err = "panic: " + strings.SplitN(fmt.Sprint(e), "\n", 2)[0]
@@ -337,6 +339,15 @@ func vObserveStack(stack []*Reader, queries []string) (o vStackObs) {
 			o.Err = "panic: " + strings.SplitN(fmt.Sprint(e), "\n", 2)[0]
 		}
 	}()
+	for _, r := range stack {
+		n := map[int]int{}
+		for _, hg := range r.hostGroups {
+			n[hg.hostSize]++
+			if n[hg.hostSize] > 1 {
+				o.Multi = true
+			}
+		}
+	}
 	// direct: newest file wins per id
 	vis := map[uint64]vRec{}
 	fill := map[uint64]vRec{}
@@ -391,6 +402,14 @@ func vObserveStack(stack []*Reader, queries []string) (o vStackObs) {
 
 // the search battery: fixed sorts/limits plus filters on values that occur in the pushed streams
 func vQueries(pushed [][]vStreamC, rng *rand.Rand) []string {
+	for i := range pushed {
+		if len(pushed[i]) > 2000 {
+			// tens of thousands of hosts: host *filters* cost minutes in the search engine (buildSearchObjects);
+			// keep the sorts, which are what merging rewrites
+			return []string{"sort:id", "sort:ftime", "sort:-ltime", "sort:chost", "sort:-shost", "sort:shost limit:2", "sort:-chost limit:3",
+				"sort:ftime limit:2", "sort:-ltime,id limit:2", "sbytes:65536: sort:ltime", "cport:1001 sort:id", "id:1:3 sort:-ftime"}
+		}
+	}
 	qs := []string{"sort:id", "sort:-id", "sort:ftime", "sort:-ftime", "sort:ltime", "sort:-ltime", "sort:chost", "sort:-shost", "sort:cport",
 		"sort:sbytes", "sort:-cbytes", "sort:ftime limit:2", "sort:-ltime limit:2", "sort:ltime limit:1", "sort:-ftime limit:3", "sort:id limit:1",
 		"sort:shost limit:2", "sort:ftime,id", "sort:-ltime,id limit:2", "protocol:tcp sort:ftime", "protocol:udp sort:-ltime",
@@ -599,6 +618,7 @@ func TestVerifIndexFile(t *testing.T) {
 		merges []*vMergeRow
 	}
 	results := make([]result, len(vecs))
+	elapsed := make([]float64, len(vecs))
 	var wg sync.WaitGroup
 	sem := make(chan struct{}, par)
 	for vi := range vecs {
@@ -609,6 +629,8 @@ func TestVerifIndexFile(t *testing.T) {
 			defer func() { <-sem }()
 			v := &vecs[vi]
 			res := &results[vi]
+			t0 := time.Now()
+			defer func() { elapsed[vi] = time.Since(t0).Seconds() }()
 			switch {
 			case v.Vec == "c01" && v.Random > 0:
 				g := vNewRandGen(v.Seed)
@@ -674,7 +696,20 @@ func TestVerifIndexFile(t *testing.T) {
 	}
 	tw.Flush()
 	tf.Close()
-	out := map[string]interface{}{"vectors": len(vecs), "rows": tr, "files": nFiles, "merges": nMerges, "streams": nStreams, "fillers": nFill}
+	order := make([]int, len(vecs))
+	for i := range order {
+		order[i] = i
+	}
+	sort.Slice(order, func(a, b int) bool { return elapsed[order[a]] > elapsed[order[b]] })
+	slow := []string{}
+	total := 0.0
+	for i, vi := range order {
+		total += elapsed[vi]
+		if i < 8 {
+			slow = append(slow, fmt.Sprintf("%s %.1fs", vecs[vi].Name, elapsed[vi]))
+		}
+	}
+	out := map[string]interface{}{"slowest": slow, "cpu_s": total, "vectors": len(vecs), "rows": tr, "files": nFiles, "merges": nMerges, "streams": nStreams, "fillers": nFill}
 	js, _ := json.MarshalIndent(out, "", " ")
 	if err := os.WriteFile(os.Getenv("VERIF_OUT"), js, 0o644); err != nil {
 		t.Fatal(err)
